@@ -19,7 +19,10 @@ THEOREMS = ["C01_auth_zone_alone_local", "C01_owned_never_referral", "C01_cache_
             "C01_cache_noninterference_owned_local", "C01_longest_zone_only", "C01_override_exact",
             "C01_override_any", "C01_prioritising_merge_spec", "C01_nxdomain_only_from_auth_zone_local",
             "C01_nxdomain_resolved_local", "C01_no_panic_no_fuel", "C01_authoritative_only_total",
-            "C01_done_means_no_upstream_recursive", "C01_done_means_no_upstream_forwarding", "C01_log_names_not_owned_recursive", "C01_log_names_not_owned_forwarding", "C01_owned_local_cases", "C01_nxdomain_only_from_auth_zone_recursive", "C01_nxdomain_only_from_auth_zone_forwarding"]
+            "C01_done_means_no_upstream_recursive", "C01_done_means_no_upstream_forwarding", "C01_log_names_not_owned_recursive", "C01_log_names_not_owned_forwarding", "C01_owned_local_cases", "C01_nxdomain_only_from_auth_zone_recursive", "C01_nxdomain_only_from_auth_zone_forwarding",
+            "C01_cut_sound", "C01_upstream_chain_cut_recursive", "C01_upstream_cached_not_owned_recursive",
+            "C01_upstream_chain_cut_forwarding", "C01_upstream_cached_not_owned_forwarding",
+            "C01_upstream_chain_cut_witness_recursive", "C01_upstream_chain_cut_witness_forwarding"]
 RULE = ("local stream (authoritative-only mode and resolve_local): case = a set of zones (nested apexes, authoritative and not, "
         "wildcards, CNAMEs, delegations, blocklist entries), cache contents and 3..96 questions; non-trivial = distinct case line in "
         "which at least one question is answered (not an error) from zone or cache data according to the model.  "
@@ -43,13 +46,13 @@ ASSUMPTIONS = [
     "is non-authoritative: D2); (ii) override exactness as in the local stream -- for ANY judged on successful replies only, since "
     "the other types are fetched upstream and an unreachable upstream fails the resolution as a whole; (iii) name errors; "
     "(provenance) every record at an owned name is the zone's",
-    "KNOWN FINDING upstream-chain-into-owned-name (known_findings.json, reported on every run): the clause 'nothing from an "
-    "upstream server is used for names the zone owns' holds for questions about owned names and for every chain the resolver "
-    "follows itself, but NOT for the tail of an alias chain delivered inside one upstream reply (recursive: alias and target on "
-    "one server; forwarding: always).  The oracle files a foreign record under that class only if it stands in an upstream reply "
-    "of the same resolution to a question about another name and is not initial-cache data; it then still judges every other "
-    "clause of the case.  Any other foreign record at an owned name (class foreign-record-for-owned-name / "
-    "cached-record-for-owned-name) is a violation",
+    "the clause 'nothing from an upstream server is used for names the zone owns' is checked WITHOUT exception since fix b2bc3c2 "
+    "(an upstream / forwarder alias chain that leads into a locally authoritative name is cut there and the rest resolved "
+    "locally; formerly the recorded finding upstream-chain-into-owned-name, known_findings.json status fixed): every foreign "
+    "record at an owned name is a violation.  The oracle still names where it came from -- class "
+    "upstream-chain-into-owned-name if it stands in an upstream reply of the same resolution to a question about another name, "
+    "cached-record-for-owned-name if it is initial-cache data, foreign-record-for-owned-name otherwise; the two former "
+    "witnesses stay first in the network-mode stream (corpus-split-horizon, corpus-auth-vs-upstream) and now show the zone's data",
     "the cache is read at a fixed virtual instant (clock hook set to 0 and never advanced): cget = SharedCache::get on the "
     "contents inserted by the case; that get() also refreshes the LRU stamp is not observable through resolve_local",
     "Context::at_recursion_limit compares len with Vec::capacity(); the model takes capacity = RECURSION_LIMIT exactly "
@@ -208,7 +211,6 @@ def net_oracle(case, impl, stats=None):
                 stats["log: exchanges checked for owned names"] = stats.get("log: exchanges checked for owned names", 0) + sum(len(r.log) for r in results)
             if why:
                 return ("upstream-asked-about-owned-name", why)
-        known = []
         for q, r in zip(questions, results):
             if r.kind in ("Panic", "OutOfFuel"):
                 continue
@@ -217,23 +219,17 @@ def net_oracle(case, impl, stats=None):
                 """where a record at an owned name that is not the zone's came from"""
                 if any(x["name"] == rr["name"] and x["type"] == rr["type"] and x["data"] == rr["data"] for x in cache):
                     return "cached-record-for-owned-name"
-                # the known finding of C01 (known_findings.json), narrowly: the record stands in the answer section of
-                # an upstream reply of THIS resolution to a question about another name -- the reply carried its own
-                # alias chain into the owned name (upstream was never asked about an owned name: checked above).
-                # It is noted and the remaining clauses are still judged, so it cannot mask anything else.
+                # the former known finding of C01 (fixed by b2bc3c2: cut_at_local_authority), an ordinary failure
+                # class now: the record stands in the answer section of an upstream reply of THIS resolution to a
+                # question about another name -- the reply carried its own alias chain into the owned name
                 for e in r.log:
                     ans = netgen.reply_answers(c, e)
                     if ans and r.rrs[i] in ans and g.labels_of(e.qname) != rr["name"]:
-                        known.append(("upstream-chain-into-owned-name",
-                                      text + " -- it stands in the upstream reply to the question about %s, whose alias chain leads there"
-                                      % rg.tokname(e.qname)))
-                        return None
+                        return "upstream-chain-into-owned-name"
                 return "foreign-record-for-owned-name"
             f = clauses(zones, q, g.parse_resolved(r.raw), nlog=len(r.log), foreign=foreign, stats=stats)
             if f is not None:
                 return f
-        if known:
-            return known[0]
     except Exception:      # malformed output is a correspondence matter
         return None
     return None
